@@ -415,9 +415,12 @@ def fixed_programs(rng, pid):
     # every flag mask, set and cleared again
     for m in FLAG_MASKS:
         ops += ["new", "push TCP", f"set 0 flags {rng.randrange(4096)}", f"set 0 set_flag {m} 1", "show", f"set 0 set_flag {m} 0", "show"]
-    # sack: no edges (fixed: indexed an empty vector), 64 edges (length octet wraps to 0: nothing is stored)
+    # sack: no edges (fixed: indexed an empty vector); 64 / 65 edges (fixed: the length was cut to 8 bits and edges were
+    # dropped silently; now 258 / 262 option bytes that serialize() refuses); 16384 edges: option_payload_too_large
     ops += ["new", "push TCP", "set 0 sack -", "show"]
-    ops += ["new", "push TCP", "set 0 sack " + ".".join(str(i) for i in range(64)), "show"]
+    ops += ["new", "push TCP", "set 0 sack " + ".".join(str(100 + i) for i in range(64)), "show"]
+    ops += ["new", "push TCP", "set 0 sack " + ".".join(str(100 + i) for i in range(65)), "show"]
+    ops += ["new", "push TCP", "set 0 sack " + ".".join(str(i) for i in range(16384)), "show"]
     # option payload at and above the 16-bit limit of PDUOption
     ops += ["new", "push TCP", "set 0 add_option 253 " + "00" * 65536, "show"]
     if pid == "C02":
@@ -482,7 +485,7 @@ def tcp_option_bytes(case):
             elif op == "timestamp": o.append((8, 8))
             elif op == "sack" and len(w) == 4:
                 cnt = 0 if w[3] == "-" else len(w[3].split("."))
-                o.append((5, (4 * cnt) % 256))
+                o.append((5, 4 * cnt))
             elif op in ("add_option", "add_option_copy") and len(w) == 5: o.append((int(w[3]) % 256, hexlen(w[4])))
             elif op == "add_option_nodata" and len(w) == 5: o.append((int(w[3]) % 256, 0))
             elif op == "add_option_len" and len(w) == 6: o.append((int(w[3]) % 256, hexlen(w[5])))
